@@ -69,3 +69,51 @@ Print Assumptions C01_norm_same_bytes.
 Theorem C01_deterministic : forall U v b1 b2, enc U v = Ok b1 -> enc U v = Ok b2 -> b1 = b2.
 Proof. intros U v b1 b2 H1 H2. rewrite H1 in H2. now apply Ok_inj in H2. Qed.
 Print Assumptions C01_deterministic.
+
+(* ---------- the exact form: what the trip returns is the value ITSELF ----------
+   [norm] is the identity exactly on the canonical values (TL/Canonical.v): relative to the
+   flags word of each struct inside v, an absent conditional field holds the zero value of its
+   type, a `flags.N?true` field holds the presence of its group, travelling slices are non-nil.
+   Nothing else is ever changed by a round trip. *)
+From MTV Require Import TL.Canonical.
+
+Theorem C01_canonical_exact : forall U t v, canonical U t v = true <-> norm U v = v.
+Proof. exact canonical_iff. Qed.
+Print Assumptions C01_canonical_exact.
+
+Theorem C01_norm_is_canonical : forall U t v, wt U t v = true -> canonical U t (norm U v) = true.
+Proof. exact canonical_norm. Qed.
+Print Assumptions C01_norm_is_canonical.
+
+Theorem C01_roundtrip_exact : forall U inflate, pseudo_ok U = true ->
+  forall v t bs, wt U t v = true -> canonical U t v = true -> enc U v = Ok bs ->
+  forall h rest, exists f0, forall f, (f0 <= f)%nat ->
+    dec U inflate f (JVal t) (h, bs ++ rest) = DOk ([v], (h, rest)).
+Proof. exact roundtrip_exact. Qed.
+Print Assumptions C01_roundtrip_exact.
+
+Theorem C01_roundtrip_exact_named : forall U inflate, pseudo_ok U = true ->
+  forall tid fs bs, wt U (TPtr tid) (VObj tid fs) = true -> canonical U (TPtr tid) (VObj tid fs) = true ->
+  enc U (VObj tid fs) = Ok bs ->
+  exists f0, forall f, (f0 <= f)%nat -> decode_named U inflate f tid bs = DOk (VObj tid fs).
+Proof. exact roundtrip_named_exact. Qed.
+Print Assumptions C01_roundtrip_exact_named.
+
+Theorem C01_roundtrip_exact_unknown : forall U inflate, pseudo_ok U = true ->
+  forall tid fs bs, wt U (TIface 0) (VObj tid fs) = true -> canonical U (TIface 0) (VObj tid fs) = true ->
+  enc U (VObj tid fs) = Ok bs ->
+  exists f0, forall f, (f0 <= f)%nat -> decode_unknown U inflate f [] bs = DOk (VObj tid fs).
+Proof. exact roundtrip_unknown_exact. Qed.
+Print Assumptions C01_roundtrip_exact_unknown.
+
+(* and the hypothesis cannot be dropped: a `flags.0?true` member set to false next to a present
+   sibling of its group has no wire form of its own (one bit per group: TL semantics) *)
+Theorem C01_roundtrip_exact_needs_canonical :
+  let v := VObj 0 [VInt 7; VBool false] in
+  wt grp_U (TPtr 0) v = true /\ canonical grp_U (TPtr 0) v = false /\
+  exists bs, enc grp_U v = Ok bs /\ forall f, decode_named grp_U (fun _ => None) f 0 bs <> DOk v.
+Proof.
+  destruct canonical_needed as (_ & Hwt & _ & Hc & _ & bs & He & Hn & _).
+  cbv zeta. split; [exact Hwt|]. split; [exact Hc|]. exists bs. split; [exact He|exact Hn].
+Qed.
+Print Assumptions C01_roundtrip_exact_needs_canonical.
